@@ -75,7 +75,10 @@ class XArr(_Sym):
 
     @staticmethod
     def _idx(k, n):
-        return list(range(n))[k] if isinstance(k, slice) else [k]
+        if isinstance(k, slice):
+            k = slice(*[None if x is None else int(x) for x in (k.start, k.stop, k.step)])
+            return list(range(n))[k]
+        return [int(k) % n if -n <= int(k) < n else int(k)]
 
     def __getitem__(self, k):
         if self.ndim == 1:
@@ -124,6 +127,36 @@ class XArr(_Sym):
                 for j in c:
                     self.d[i][j] = F(v)
 
+    def astype(self, *a, **k):
+        return self
+
+    def copy(self):
+        return XArr([list(r) for r in self.d] if self.ndim == 2 else list(self.d))
+
+    def reshape(self, *shape):
+        shape = list(shape[0]) if len(shape) == 1 and isinstance(shape[0], (list, tuple)) else list(shape)
+        flat = [x for r in self.d for x in r] if self.ndim == 2 else list(self.d)
+        if len(shape) == 1:
+            n_ = len(flat) if shape[0] == -1 else int(shape[0])
+            if n_ != len(flat):
+                raise ValueError(f"cannot reshape array of size {len(flat)} into shape {tuple(shape)}")
+            return XArr(flat)
+        if len(shape) != 2:
+            raise ValueError("reshape to more than two dimensions is not modelled")
+        r_, c_ = shape
+        if r_ == -1:
+            if int(c_) == 0 or len(flat) % int(c_):
+                raise ValueError(f"cannot reshape array of size {len(flat)} into shape {tuple(shape)}")
+            r_ = len(flat) // int(c_)
+        if c_ == -1:
+            c_ = len(flat) // int(r_)
+        if int(r_) * int(c_) != len(flat):
+            raise ValueError(f"cannot reshape array of size {len(flat)} into shape {tuple(shape)}")
+        return XArr([flat[i * int(c_):(i + 1) * int(c_)] for i in range(int(r_))])
+
+    def tolist(self):
+        return [list(r) for r in self.d] if self.ndim == 2 else list(self.d)
+
     def dot(self, o):
         if self.ndim == 1 and o.ndim == 2:
             if len(self.d) != o.shape[0]:
@@ -138,6 +171,71 @@ class XArr(_Sym):
         raise ValueError("dot of these ranks is not modelled")
 
 
+def _xarray(x, dtype=None, **k):
+    """np.array of a nested literal of exact numbers"""
+    if isinstance(x, XArr):
+        return x.copy()
+    if isinstance(x, (list, tuple)) and x and isinstance(x[0], (list, tuple)):
+        if len({len(r) for r in x}) != 1:
+            raise ValueError("setting an array element with a sequence. The requested array has an inhomogeneous shape")
+        return XArr([[F(v) for v in r] for r in x])
+    if isinstance(x, (list, tuple)):
+        return XArr([F(v) for v in x])
+    raise ValueError(f"np.array({x!r}) is not modelled")
+
+
+def tableau_by_run(src, gt, method):
+    """exact abstract run of RungeKutta.get_tableau for one method name: decimal and fractional literals are the rationals they spell, arrays are exact; returns
+    {'a': rows, 'b': rows, 'c': entries, 'Nstage': n, 'order': tuple} or {'__assert_false__': True} when the dispatch rejects the name"""
+    from ..syminterp import SymInterp, Sym, SymRaise
+    it = SymInterp(src, None, {"np": Sym("np", array=_xarray, asarray=_xarray, zeros=_xzeros, float64="float64", float32="float32")})
+    it.exact = True
+    it.check_asserts = True
+    it.max_depth = 8
+    me = Sym("rk", method=method)
+    me._cls = "RungeKutta"
+    from .chain_rules import class_resolver
+    it.resolver = class_resolver(src, {"RungeKutta": RK})
+    try:
+        res = it.call_function(gt, [me])
+    except SymRaise as e:
+        return {"__assert_false__": True, "why": str(e)}
+    if not (isinstance(res, tuple) and len(res) == 3 and isinstance(res[0], (list, tuple)) and len(res[0]) == 3):
+        raise AnalysisError(f"{gt.where}: return value is not ([a, b, c], Nstage, order)")
+    a, b, c = res[0]
+    if not all(isinstance(x, XArr) for x in (a, b, c)):
+        raise AnalysisError(f"{gt.where}[{method}]: tableau entries are not arrays: {a!r}, {b!r}, {c!r}")
+    order = res[2]
+    return {"a": a.tolist() if a.ndim == 2 else [a.tolist()], "b": b.tolist() if b.ndim == 2 else [b.tolist()], "c": c.tolist(), "Nstage": F(res[1]),
+            "order": tuple(F(x) for x in order) if isinstance(order, (tuple, list)) else F(order)}
+
+
+def tableaux_of_method_list(src):
+    """{method: (a, b, c, stages, orders)} by exact abstract runs of get_tableau for every name of method_list; names whose dispatch fails are left to C19's own rules"""
+    mod = src.modules[RK]
+    names = None
+    for n in mod.body:
+        if isinstance(n, ast.Assign) and len(n.targets) == 1 and unparse(n.targets[0]) == "method_list":
+            try:
+                names = fold(n.value, {})
+            except NotConstant:
+                raise AnalysisError("method_list is not a literal list")
+    if not names:
+        raise AnalysisError("method_list literal not found in utils/rk.py")
+    gt = src.func(RK, "RungeKutta.get_tableau")
+    out = {}
+    for m in names:
+        try:
+            e = tableau_by_run(src, gt, m)
+        except ValueError:
+            continue
+        if e.get("__assert_false__"):
+            continue
+        order = e["order"] if isinstance(e["order"], tuple) else (e["order"],)
+        out[m] = (e["a"], e["b"], e["c"], int(e["Nstage"]), [int(x) for x in order])
+    return out
+
+
 def _xzeros(shape, dtype=None):
     if isinstance(shape, (list, tuple)):
         return XArr([[F(0)] * int(shape[1]) for _ in range(int(shape[0]))]) if len(shape) == 2 else XArr([F(0)] * int(shape[0]))
@@ -150,8 +248,10 @@ def ti_expansion_rule(chk, src, tableaux):
     from math import factorial
     fi = src.func(RK, "RungeKutta.runge_kutta_ti_coefficient")
     for m, (a, b, c, s, order) in tableaux.items():
-        it = SymInterp(src, None, {"np": Sym("np", zeros=_xzeros)})
+        from .chain_rules import class_resolver
+        it = SymInterp(src, class_resolver(src, {"RungeKutta": RK}), {"np": Sym("np", zeros=_xzeros, array=_xarray)})
         me = Sym("rk", tableau=[XArr([list(r) for r in a]), XArr([list(r) for r in b]), XArr(list(c))], stage=s, order=tuple(order), method=m)
+        me._cls = "RungeKutta"
         problems = []
         try:
             res = it.call_function(fi, [me])
@@ -224,20 +324,17 @@ def run(chk):
            line=init.node.lineno)
 
     gt = src.func(RK, "RungeKutta.get_tableau")
-    # the roles (matrix, weights, nodes, stage count, orders) are the positions of the returned structure ([a, b, c], Nstage, order); local names are free
-    rets = [n for n in ast.walk(gt.node) if isinstance(n, ast.Return) and n.value is not None]
-    rv = rets[0].value if len(rets) == 1 else None
-    if not (isinstance(rv, ast.Tuple) and len(rv.elts) == 3 and isinstance(rv.elts[0], (ast.List, ast.Tuple)) and len(rv.elts[0].elts) == 3
-            and all(isinstance(x, ast.Name) for x in list(rv.elts[0].elts) + list(rv.elts[1:]))):
-        raise AnalysisError(f"{gt.where}: return value is not ([a, b, c], Nstage, order) over plain names: {unparse(rv) if rv is not None else rets}")
-    NA, NB, NC = (x.id for x in rv.elts[0].elts)
-    NS, NO = rv.elts[1].id, rv.elts[2].id
-    ROLES = (NA, NB, NC, NS, NO)
     nconds = 0
     sharp = {}
     tableaux = {}
+    NA, NB, NC, NS, NO = "a", "b", "c", "Nstage", "order"
+    ROLES = (NA, NB, NC, NS, NO)
     for m in method_list:
-        env = partial_eval_dispatch(gt.node, "self.method", m, ROLES)
+        try:
+            env = tableau_by_run(src, gt, m)
+        except ValueError as e:
+            chk.ob("shape", m, False, gt.where, f"ValueError: {e}", "rectangular", line=gt.node.lineno, detail=f"get_tableau raises for method {m!r}: {e}")
+            continue
         where = gt.where
         if env.get("__assert_false__"):
             chk.ob("dispatch-total", m, False, where, "assert False / raise reached", "tableau assignment",
@@ -315,9 +412,22 @@ def run(chk):
     ORDER = 24
     try:
         arr = npfold(coeff, {"self.order": ("int", ORDER), "order": ("int", ORDER)})
-    except NotConstant as e:
-        raise AnalysisError(f"TaylorExpansion coefficient expression not foldable: {e}")
-    vals = arr.vals if isinstance(arr, NArr) else None
+        vals = arr.vals if isinstance(arr, NArr) else None
+    except NotConstant:
+        # not one array expression (e.g. a list filled by a loop): exact abstract run of the constructor; numpy integer arrays (whose products wrap) are not modelled there
+        from ..syminterp import SymInterp, Sym
+        from math import factorial as _fact
+
+        def _no(*a, **k):
+            raise AnalysisError("TaylorExpansion.__init__ builds its coefficients with numpy integer arithmetic outside the folded fragment")
+        it_ = SymInterp(src, None, {"np": Sym("np", array=lambda x, **k: list(x), asarray=lambda x, **k: list(x), cumprod=_no, arange=_no, prod=_no),
+                                    "factorial": lambda i: F(_fact(int(i))), "scipy": Sym("scipy", special=Sym("special", factorial=lambda i: F(_fact(int(i))))),
+                                    "math": Sym("math", factorial=lambda i: F(_fact(int(i))))})
+        it_.exact = True
+        me_ = Sym("taylor")
+        it_.call_function(te, [me_, ORDER])
+        vals = list(me_.__dict__.get("coeff", [])) if isinstance(me_.__dict__.get("coeff"), (list, tuple)) else None
+        arr = vals
     chk.ob("taylor", "range", vals is not None and len(vals) == ORDER + 1, te.where, len(vals) if vals is not None else repr(arr), f"{ORDER + 1} coefficients for order {ORDER}", line=coeff.lineno,
            detail="the expansion of order n needs the coefficients of H^0 .. H^n")
     bad = [(k, str(v)) for k, v in enumerate(vals or []) if F(v) != F(1, factorial(k))]
